@@ -32,8 +32,14 @@ Definition L1 (p : params) (s : state) : Prop :=
 Lemma L1_init p : L1 p init.
 Proof. unfold L1, init; cbn; repeat split; intros; try discriminate; lia. Qed.
 
-Ltac fin1 := dk; unfold L1; unf; cbn; gifs; cbn; repeat split; intros; try discriminate; try lia;
-  try (intuition (try discriminate; try lia)).
+Ltac spec := repeat match goal with
+  | H : ?A -> _, H' : ?A |- _ => specialize (H H')
+  | H : true = true -> _ |- _ => specialize (H eq_refl)
+  | H : false = true -> _ |- _ => clear H
+  end.
+Ltac conj := repeat match goal with H : _ /\ _ |- _ => destruct H end.
+Ltac fin1 := dk; unfold L1; unf; cbn; gifs; cbn; repeat split; intros; try discriminate; spec; conj;
+  try discriminate; try lia.
 
 Lemma L1_step_io p s r res s' l : L1 p s -> step_io p s r res = Some (s', l) -> L1 p s'.
 Proof.
@@ -44,5 +50,16 @@ Proof.
   all: cbn in E; unf; cbn in E.
   all: split_ifs E; try discriminate; try inv_some.
   all: fin1.
-  Show 1.
+Qed.
+
+Lemma L1_step_w p s r s' l : L1 p s -> step_w p s r = Some (s', l) -> L1 p s'.
+Proof.
+  intros H E. ds s. unfold L1 in H. cbn in H.
+  destruct H as (Ha & Hq & Hu & Hr & Hl).
+  unfold step_w in E. cbn [ChanFlow.wk] in E.
+  destruct wk0; cbn in Ha, Hq.
+  all: cbn in E; unf; cbn in E.
+  all: split_ifs E; try discriminate; try inv_some.
+  all: fin1.
+  all: try (idtac "left"; fail).
 Qed.
